@@ -4,7 +4,7 @@
    the correspondence executes the same definitions over Z_(2^61-1). *)
 From Coq Require Import List NArith Bool Arith Field QArith Qcanon.
 Import ListNotations.
-From VF Require Import C17.Model C17.Proofs C17.ExpProofs C17.CredModel C17.CredProofs.
+From VF Require Import C17.Model C17.Proofs C17.ExpProofs C17.CredModel C17.CredProofs C17.ScalarProofs.
 
 (* ---------- codec ---------- *)
 (* what DeriveProof writes as payload is read back by VerifyProof as the same count and the same revealed indexes,
@@ -366,6 +366,33 @@ Theorem proof_buffer_untouched_asis_refuted :
   proof_after_verify AsIs [0; 9; 1; 20; 7]%N <> [0; 9; 1; 20; 7]%N.
 Proof. vm_compute. discriminate. Qed.
 Print Assumptions proof_buffer_untouched_asis_refuted.
+
+(* ---------- byte encoding of the response scalars ---------- *)
+(* the parser of the repaired code (6fcc1d0) accepts a 32-byte response chunk only if its big-endian value is below the
+   group order; two accepted chunks that stand for the same scalar are the same bytes *)
+Theorem canonical_encoding_unique : forall a b, length a = length b -> bytes_ok a -> bytes_ok b ->
+  fr_canonical a = true -> fr_canonical b = true -> fr_value a = fr_value b -> a = b.
+Proof. exact canonical_unique_lemma. Qed.
+Print Assumptions canonical_encoding_unique.
+
+(* ANY alteration of an honest response chunk - one position or many - is rejected by the parser or stands for a
+   different scalar (then binding_responses / single_response_rejected apply) *)
+Theorem altered_response_chunk : forall a b, length a = length b -> bytes_ok a -> bytes_ok b ->
+  fr_canonical a = true -> a <> b -> fr_canonical b = false \/ fr_value b <> fr_value a.
+Proof. exact altered_chunk_lemma. Qed.
+Print Assumptions altered_response_chunk.
+
+(* the code as found took any 32 bytes: the chunk for 5 and the chunk for 5 + group order differ in 25 bytes, stand for
+   the same scalar, and both passed the parser (confirmed on the real code: the altered proof verified); the repaired
+   parser rejects the second *)
+Theorem canonical_encoding_asis_refuted :
+  let a := be_bytes 32 5 in
+  let b := be_bytes 32 (5 + group_order) in
+  let p := {| g_commit := []; g_nb := []; g_resp := [b]; g_trail := [] |} in
+  a <> b /\ length a = length b /\ fr_value a = fr_value b /\ addq_at 0 a = b /\
+  responses_canonical AsIs p = true /\ responses_canonical Fixed p = false.
+Proof. vm_compute. repeat split. discriminate. Qed.
+Print Assumptions canonical_encoding_asis_refuted.
 
 (* ---------- the credential level (bbsblssignatureproof2020): statements, indexes, exact statement count ---------- *)
 (* the holder rewrites every blank node label of a signed statement into a urn:bnid: IRI, the verifier rewrites back:
